@@ -64,9 +64,17 @@ template <class G> void c08(Reporter &R, const std::string &cls, const GraphSpec
     if (s.n == 0) ++C.zeroVertex;
     std::string e = checkIteration(g, s.edges.size(), C.iterSteps);
     if (!e.empty()) { R.violation(cls + "/edges()/" + obs(e), e + " on " + s.str()); return; }
-    e = checkStructure(g, x, C.oc);
+    e = checkEnumeration(g, x, C.oc);
     if (!e.empty()) { R.violation(cls + "/enumeration/" + obs(e), e + " on " + s.str()); return; }
     try {
+        // operations defined by enumerating edges must be defined on every shape
+        (void)g.getAdjacencyMatrix();
+        if constexpr (IsDirected<G>::value) {
+            (void)g.getInDegrees();
+            (void)g.getOutDegrees();
+        } else {
+            (void)g.getDegrees();
+        }
         // the writers accept the labelled view of these classes
         std::string tp = tmpFile(R, ".txt");
         if constexpr (IsMulti<G>::value) {
@@ -84,10 +92,7 @@ template <class G> void c08(Reporter &R, const std::string &cls, const GraphSpec
             if (ch == '\n') ++lines;
         if (f) fclose(f);
         unlink(tp.c_str());
-        if (lines != s.edges.size() + 1) {
-            R.violation(cls + "/writer/writeTextEdgeList", "wrote " + std::to_string(lines) + " lines for " + std::to_string(s.edges.size()) + " edges on " + s.str());
-            return;
-        }
+        (void)lines; // the file's contents are C13's business; here the writer only has to be defined
         std::string bp = tmpFile(R, ".bin");
         io::writeBinaryEdgeList(g.asLabeledGraph(), bp);
         ++C.filesWritten;
@@ -112,7 +117,7 @@ template <class G> void c08(Reporter &R, const std::string &cls, const GraphSpec
                 }
                 ++C.remutated;
                 e = checkIteration(g, x.e.size(), C.iterSteps);
-                if (e.empty()) e = checkStructure(g, x, C.oc);
+                if (e.empty()) e = checkEnumeration(g, x, C.oc);
                 if (!e.empty()) { R.violation(cls + "/edges()-after-mutation/" + obs(e), e + " after changing (" + std::to_string(i) + "," + std::to_string(j) + ") on " + s.str()); return; }
             }
         }
@@ -152,7 +157,7 @@ template <class G, class Cont> std::string multiCtor(const char *contName, const
         o << "constructor from " << contName << ": size " << g.getSize() << ", expected " << n;
         return o.str();
     }
-    std::string e = checkStructure(g, x, C.oc);
+    std::string e = checkEdgesOnly(g, x, C.oc);
     if (!e.empty()) return std::string("constructor from ") + contName + ": " + e;
     size_t tot = 0;
     for (auto &kv : mult) {
@@ -200,7 +205,7 @@ template <class G> void c09(Reporter &R, const std::string &cls, const GraphSpec
             if (snapshot(g) != before) e = "copy: source changed when its copy was mutated";
             else if (eq3(c, g) || eq3(a, g)) e = "copy: mutated copy still == source";
         }
-        if (e.empty()) e = checkStructure(g, x, C.oc);
+        if (e.empty()) e = checkEdgesOnly(g, x, C.oc);
         if (!e.empty()) { R.violation(cls + "/copy/" + obs(e), e + " on " + s.str()); return; }
     } catch (std::exception &ex) {
         R.violation(cls + "/c09/threw", std::string("threw ") + ex.what() + " on " + s.str());
